@@ -107,6 +107,16 @@ Theorem C04_received_offer_is_reported : forall X e a s w,
   up_l id a s (out (handle_offer e a w)) = true.
 Proof. exact offer_reported. Qed.
 
+(* ... and a NEW offer (nothing stored for that service from that source) makes an auto-subscribe listener registered
+   for it add the subscription entry for (its eventgroup, the source): the Subscribe follows with the next round, or at
+   once when the subscriber is running *)
+Theorem C04_new_offer_makes_the_watcher_subscribe : forall e a s w g g' f ls,
+  from_offer_entry e = Ok s -> (e_ttl e =? 0) = false -> is_watching e w = true ->
+  aget key_eqb (KService s) (inner a (found w)) = None ->
+  for_service g s = Some g' -> In (f, ls) (watched w) -> matches_service f s = true -> In (LAuto g) ls ->
+  In (g', a) (sub_entries (handle_offer e a w)).
+Proof. exact new_offer_subscribes. Qed.
+
 (* the per-entry dispatch of ServiceDiscoveryProtocol.sd_message_received in the model IS the control flow translated
    from the source text on every run (which component handles which entry type, directly or through call_soon) *)
 Theorem C04_dispatch_is_the_translated_source : forall h a mc w,
@@ -128,3 +138,4 @@ Print Assumptions C04_listener_histories_truthful_in_the_composition.
 Print Assumptions C04_received_offer_is_recorded.
 Print Assumptions C04_received_offer_is_reported.
 Print Assumptions C04_timed_invariants_in_the_composition.
+Print Assumptions C04_new_offer_makes_the_watcher_subscribe.
